@@ -262,6 +262,10 @@ def gen(t, tier):
             sc['gc_at'] = sorted(set(t.choice(150) for _ in range(t.randint(1, 3))))
             if not any(i['fail'] for i in sc['items']) and sc['items']:
                 sc['items'][t.choice(len(sc['items']))]['fail'] = True
+        elif sc['result_objects'] and len(sc['items']) >= 2 and t.chance(0.5):
+            # the consumer of the first call simply stops after a few results (a break in its loop): no exception, no
+            # shutdown - the rest of that call is still under way when the pool is used again
+            sc['leave_early'] = t.randint(1, len(sc['items']) - 1)
     return sc
 
 
@@ -473,6 +477,12 @@ def run(sc, tape):
                 it = async_.starcall([(work, i, 'x') for i in range(n)])
             if sc.get('abandon') and not out.get('second_round'):
                 out['abandoned'] = _consume_like_a_call_site(pool, it, got)
+            elif sc.get('leave_early') and not out.get('second_round'):
+                for r in it:
+                    got.append(r)
+                    if len(got) >= sc['leave_early']:
+                        break
+                out['left_early'] = True
             else:
                 for r in it:
                     got.append(r)
@@ -520,6 +530,14 @@ def run(sc, tape):
             ex = out['caller_exc']
             v = {'sig': 'C15:unexpected-exception:%s:%s' % (type(ex).__name__, rname),
                  'msg': 'the call raised %r (not an exception of any item)' % (ex,)}
+        elif out.get('left_early'):
+            got = out['got']
+            for j, g in enumerate(got):
+                want_exc = out['excs'][j] if items[j]['fail'] else None
+                if (want_exc is None and (g.exception is not None or g.result != out['values'][j])) or \
+                        (want_exc is not None and (g.exception is None or g.exception[1] is not want_exc)):
+                    v = {'sig': 'C15:wrong-prefix:%s' % rname, 'msg': 'result %d of the call that was left early is %s' % (j, _short(g))}
+                    break
         elif out.get('abandoned'):
             # consumed up to the first failing result only: what was handed out must be the in-order prefix
             first_fail = min(i for i in range(n) if items[i]['fail'])
@@ -556,6 +574,8 @@ def run(sc, tape):
         probes['gc_runs_during_second_call'] = probes_gc[0]
     if outs and outs[0].get('abandoned'):
         probes['first_call_abandoned_at_failing_result'] = 1
+    if outs and outs[0].get('left_early'):
+        probes['first_call_left_early'] = 1
     nontrivial = len(threads_used) >= 2 and (reordered or any(i['fail'] for i in first['items']))
     return {'violation': v, 'digest': C.digest_of(sc['api'], sc['pool'], sc['result_objects'], rounds, sched.log),
             'nontrivial': nontrivial, 'steps': sched.steps, 'sim_time': 0.0, 'faults': {},
